@@ -376,6 +376,22 @@ impl<'a, T: QueryToRelationTranslator + Copy + Clone> VisitedQueryRelations<'a, 
         let all_columns: Hierarchy<Identifier> = left_columns.with(right_columns);
         let operator =
             self.try_from_join_operator_with_columns(&ast_join.join_operator, &all_columns)?;
+        // The columns of the join condition have to be columns of the joined relations
+        if let JoinOperator::Inner(on)
+        | JoinOperator::LeftOuter(on)
+        | JoinOperator::RightOuter(on)
+        | JoinOperator::FullOuter(on) = &operator
+        {
+            let input_data_type = crate::DataType::structured([
+                (Join::left_name(), left_relation.schema().data_type()),
+                (Join::right_name(), right_relation.schema().data_type()),
+            ]);
+            for column in on.columns() {
+                if input_data_type.hierarchy().get(column).is_none() {
+                    return Err(Error::other(format!("Unknown column: {column}")));
+                }
+            }
+        }
         let join: Join = Relation::join()
             .operator(operator)
             .left(left_relation)
